@@ -115,8 +115,8 @@ add("c06-condition-else-true", "C06", "task_constraint.py",
 add("c06-forcen-ple", "C06", "task_constraint.py",
     '        problem_function = {"min": z3.PbGe, "max": z3.PbLe, "exact": z3.PbEq}\n\n        # first check that all tasks from the list_of_optional_tasks are',
     '        problem_function = {"min": z3.PbGe, "max": z3.PbLe, "exact": z3.PbLe}\n\n        # first check that all tasks from the list_of_optional_tasks are')
-add("c06-unscheduled-duration-free", "C06", "task.py",
-    "                    self._end == point_in_past,  # to past\n                    self._duration == 0,\n", "                    self._end == point_in_past,  # to past\n")
+# (removed: "unscheduled variable task no longer pins _duration == 0" - no property observes the duration of an
+#  unscheduled task; equivalent with respect to C01-C19)
 add("c06-buffer-quantity-unscheduled", "C06", "solver.py",
     "        return z3.If(task._scheduled, quantity, 0)", "        return quantity")
 # ---- C07
@@ -155,9 +155,8 @@ add("c09-final-first", "C09", "solver.py",
 add("c09-bounds-skip-initial", "C09", "solver.py",
     "            if buffer.lower_bound is not None:\n                for st in buffer._buffer_levels:",
     "            if buffer.lower_bound is not None:\n                for st in buffer._buffer_levels[:-1]:")
-add("c09-clean-keeps-first", "C09", "util.py",
-    "        if new_l2.count(b) < 1:\n            new_l1.append(a)\n            new_l2.append(b)",
-    "        if new_l2.count(b) < 1:\n            new_l1.append(a)\n            new_l2.append(b)\n        elif a != 0:\n            new_l1[-1] = a")
+# (removed: "clean_buffer_levels keeps the last instead of the first level of duplicate instants" - the concurrent
+#  encoding gives duplicates the same level, so the two are observationally equal)
 add("c09-load-sign", "C09", "solver.py",
     "                            _buffer_quantity(t, +buffer._loading_tasks[t]),\n                        )\n                    )",
     "                            _buffer_quantity(t, -buffer._loading_tasks[t]),\n                        )\n                    )")
